@@ -54,7 +54,7 @@ package net
 //@   ensures[C01] old(r.len) - old(r.pos) >= 15 && (r.data[old(r.pos) + 14] == 0 || r.data[old(r.pos) + 14] > 8) ==> err != nil && r.pos <= old(r.pos) + 15
 
 //@ func readError(m *Message) (err error)
-//@   trusted
+//@   requires m != nil
 //@   ensures err != nil
 
 // C19: a session's goroutines share one connection per endpoint; that is safe only because a message
